@@ -41,6 +41,38 @@ Proof.
   unfold ret_ci. cbn [fst snd]. apply out_lab_exact.
 Qed.
 
+(* modularity_louvain_dir AS IT IS: its q is refuted (C02_louvain_dir_q_refuted), but the label clause holds — the labels of
+   every computed level and the returned labels are exactly 1..k, for every input and every move lists *)
+Lemma louvain_dir_levels_labels n0 W g s : forall lv n prev, lab1_ok n0 n prev ->
+  Forall (fun e : level_t * Q => exists k, labels_exact n0 (lvl_labels e) k) (louvain_dir_levels n0 W g s n prev lv).
+Proof.
+  induction lv as [|moves rest IH]; intros n prev Hp; cbn [louvain_dir_levels]; [constructor|].
+  destruct (louvain_dir_level n0 n W g s moves) as [tr [m0 [n' W1]]] eqn:E.
+  unfold louvain_dir_level in E. cbv zeta in E.
+  destruct (replay _ _ _ moves) as [tr' st] in E. injection E as _ Em En _.
+  assert (Em' : m0 = lev_m0 n (lab st)) by (symmetry; exact Em).
+  assert (En' : n' = lev_n n (lab st)) by (symmetry; exact En).
+  destruct (compose_step n0 n n' prev m0 Hp) as [Hc _].
+  { rewrite Em', En'. apply lev_m0_lt. }
+  { rewrite Em', En'. apply lev_m0_surj. }
+  constructor.
+  - unfold lvl_labels. cbn [fst snd]. exists n'. apply labels_exact_to_list. exact Hc.
+  - apply IH. exact Hc.
+Qed.
+
+Theorem louvain_dir_run_labels rows g lv :
+  let r := run_louvain_dir rows g lv in exists k, labels_exact (length rows) (ret_ci r) k.
+Proof.
+  unfold run_louvain_dir. cbv zeta.
+  set (res := louvain_dir_levels (length rows) _ g _ (length rows) (fun x => S x) lv).
+  pose proof (louvain_dir_levels_labels (length rows) (tabQ (length rows) (length rows) (of_rows 0 rows)) g
+                (stot (length rows) (tabQ (length rows) (length rows) (of_rows 0 rows))) lv (length rows) (fun x => S x)
+                (lab1_S (length rows))) as HF. fold res in HF.
+  destruct (pick_prev_cases (length rows) res) as [[_ Ep]|[_ [e [He Ep]]]]; rewrite Ep; unfold ret_ci; cbn [fst snd].
+  - exists (length rows). apply labels_exact_default.
+  - rewrite Forall_forall in HF. exact (HF e He).
+Qed.
+
 (* ================= given partition, on the extracted functions ================= *)
 (* modularity_und / modularity_dir with kci: every matrix, gamma and integer label list *)
 Theorem run_given_consistent dir rows g ci : fst (run_given dir rows g ci) = snd (run_given dir rows g ci).
